@@ -3,7 +3,7 @@
    decoders/encoders of sx, no logic that a property theorem speaks about. *)
 From Coq Require Import ZArith List Bool.
 From V Require Import Result Bytes TypeName Utf8 Float32 Codec AuxTable.
-From V Require World WorldRun Cfg CfgRun ByteStore ByteRun Proto ProtoRun SeqOps SeqRun SetAlg SetAlgRun.
+From V Require World WorldRun Cfg CfgRun ByteStore ByteRun Proto ProtoRun SeqOps SeqRun SetAlg SetAlgRun TwinCache TwinRun.
 Import ListNotations.
 Open Scope Z_scope.
 
@@ -152,5 +152,6 @@ Definition run (req : sx) : sx :=
   | L [A 50; l; qs] => SeqRun.run_seq l qs
   (* 51: the non-mutating set operators and comparisons on two member lists *)
   | L [A 51; a; b] => SetAlgRun.run_setalg a b
+  | L [A 52; subs; ops] => TwinRun.run_twin subs ops
   | _ => L [A (-2)]
   end.
